@@ -87,7 +87,13 @@ def impl_fixed(c):
     user = FixedChangeDetector(cps=list(c["cps"]))
     before = (dict(user.get_params()), user.is_fitted)
     try:
-        det = StatThresholdAnomaliser(user, stat=STATS[c["stat"]], stat_lower=float(Fraction(c["lo"])), stat_upper=float(Fraction(c["hi"])))
+        lo, hi = float(Fraction(c["lo"])), float(Fraction(c["hi"]))
+        form = core._bits(c, 0, 3)  # bounds as floats, as Python ints when integral, or as NumPy scalars
+        if form == 1:
+            lo, hi = (int(lo) if lo == int(lo) else lo), (int(hi) if hi == int(hi) else hi)
+        elif form == 2:
+            lo, hi = np.float64(lo), np.float64(hi)
+        det = StatThresholdAnomaliser(user, stat=STATS[c["stat"]], stat_lower=lo, stat_upper=hi)
         y = det.fit(X).predict(X)
         an = [(int(i.left), int(i.right)) for i in y["ilocs"]]
         wf = list(y.index) == list(range(len(an))) and list(y["labels"]) == list(range(1, len(an) + 1))
